@@ -178,6 +178,11 @@ let handle (line : string) : string =
   | ["icc_tags"; d] -> icc_tags (bytes_of_hex d)
   | ["icc_desc"; d] -> icc_desc (bytes_of_hex d)
   | ["quant"; w; bits] -> quant w (int_of_string bits)
+  | ["ycc"; y; cb; cr] ->
+    let ((r, g), b) = ycbcr_to_rgb8 (zi y) (zi cb) (zi cr) in
+    let (((r2, g2), b2), a2) = ycbcr_rgba16 (zi y) (zi cb) (zi cr) in
+    Printf.sprintf "%d,%d,%d %d,%d,%d,%d" (int_of_z r) (int_of_z g) (int_of_z b) (int_of_z r2) (int_of_z g2) (int_of_z b2) (int_of_z a2)
+  | ["premul"; c; a] -> string_of_int (int_of_z (nrgba_premul (zi c) (zi a)))
   | ["img_transform"; kind; pix; stride; x0; y0; x1; y1; pcs] -> img_transform kind pix stride x0 y0 x1 y1 pcs
   | ["alpha16"; a] -> string_of_int (int_of_z (alpha16_bits (z_of_int (int_of_string a))))
   | ["alpha8"; a] -> string_of_int (int_of_z (alpha8_bits (z_of_int (int_of_string a))))
